@@ -1507,7 +1507,7 @@ impl Simulation for C09Sim {
   }
   fn describe(&self) -> Describe {
     Describe {
-      rule: "a case = (generated rule project incl. randomly generated rule trees; 1-3 document URIs incl. outside-workspace, unknown-extension, and percent-encoded (spaces, non-ASCII) ones; protocol-valid notification history of 2-14 messages: didOpen/didChange with unique versions incl. stale ones arriving late, didClose + re-open, didSave, codeAction, executeCommand; a transport script: byte chunking incl. mid-header/mid-body, bursts of up to 8 messages, output budgets incl. a stalled editor, and a reply policy per server request: now / after j messages / error / null). Checked: every publishDiagnostics carries a version the client sent and exactly the findings `sg scan --json` reports for that text at that path (rule id, range, message with note decoration, severity); the last publish of every open in-workspace document is its highest version; every client request is answered once; no self-deadlock on the document map; after EOF the server returns; and on the newest text of one document per history the CLI front ends agree with each other (JSON styles, GitHub format, --stdin, sg test verdicts). non-trivial = the history has a change and >=2 publishes, or back-pressure occurred, or the server asked the client something; distinct = projected executor/transport event trace not seen before".into(),
+      rule: "a case = (generated rule project incl. randomly generated rule trees; 1-3 document URIs incl. outside-workspace, unknown-extension, and percent-encoded (spaces, non-ASCII) ones; protocol-valid notification history of 2-14 messages: didOpen/didChange with unique versions incl. stale ones arriving late, didClose + re-open, didSave, codeAction, executeCommand; a transport script: byte chunking incl. mid-header/mid-body, bursts of up to 8 messages, output budgets incl. a stalled editor, and a reply policy per server request: now / after j messages / error / null). Checked: every publishDiagnostics carries a version the client sent and exactly the findings `sg scan --json` reports for that text at that path (rule id, range, message with note decoration, severity); the last publish of every open in-workspace document is its highest version; every client request is answered once; no self-deadlock on the document map; after EOF the server returns; and on the newest text of one document per history the CLI front ends agree with each other (JSON styles, GitHub format parsed in printed order, --stdin also for rule files with files:/ignores: (one-sided there), sg test verdicts for 20 test documents); rule messages incl. multi-line ones and ones naming variables captured outside the match. non-trivial = the history has a change and >=2 publishes, or back-pressure occurred, or the server asked the client something; distinct = projected executor/transport event trace not seen before".into(),
       assumptions: vec![
         "protocol-valid histories only: unique versions per URI, re-open above every earlier version; the clause is asserted for documents whose session is open at the end of the history".into(),
         "single-language documents (no HTML): the language server does not scan embedded documents, which is a feature gap rather than a history defect".into(),
